@@ -31,6 +31,15 @@ def norm(e) -> str:
 class Terms:
     def __init__(self, model: Model, func: ast.FunctionDef, env: Dict[str, object] = None):
         self.model = model
+        # a method is read with the private (static) helpers of its class in place (`self.__WriteTypeVector(output, types)`)
+        owner = next((c for c in model.classes.values() if any(m is func for m in c.methods.values())), None)
+        if owner is not None:
+            from .sem import expand_helpers
+
+            try:
+                func = expand_helpers(model, owner, func, skip=("v_", "WriteTo", "Encode"))
+            except Exception:
+                pass
         self.func = func
         self.buffers: Dict[str, List[tuple]] = {}
         self.local_buffers = set()
